@@ -449,6 +449,87 @@ fn run(rt: &tokio::runtime::Runtime, c: &Case) -> Outcome {
     log.finish()
 }
 
+// ------------------------------------------------------------------------------------------------
+// The shipped anonymous account: a token issued while it was unrestricted must stop working once
+// the account is given a window that excludes "now" (the documented way to switch anonymous off),
+// and new anonymous logins must be refused. (Added after a seeded change that exempted anonymous
+// sessions from the window check went unnoticed.)
+
+#[derive(Debug, Clone, Serialize, Deserialize)]
+struct AnonCase {
+    vf: Option<u8>,
+    ex: Option<u8>,
+    ats: Vec<At>,
+}
+
+fn run_anon(rt: &tokio::runtime::Runtime, a: &AnonCase) -> Outcome {
+    let mut log = CaseLog::new();
+    let c = Case {
+        vf: a.vf,
+        ex: a.ex,
+        totp: false,
+        queries: vec![],
+    };
+    rt.block_on(async {
+        let mut w = World::new().await;
+        let tok = match w.login("anonymous", Mech::Anonymous, "", false, SETUP + 10).await {
+            Login::Success(t) => t,
+            o => {
+                log.fail("harness: anonymous login failed on the unrestricted account", format!("{o:?}"));
+                return;
+            }
+        };
+        w.process_delayed(SETUP + 11).await;
+        if let Err(e) = w.set_window(SETUP + 20, UUID_ANONYMOUS, c.vf.map(grid), c.ex.map(grid)).await {
+            log.fail("harness: cannot set the window on anonymous", format!("{e:?}"));
+            return;
+        }
+        let (mut n_in, mut n_out) = (0, 0);
+        for at in &a.ats {
+            let t = resolve(&c, *at);
+            // the anonymous token itself lives for a bounded time; stay inside it
+            let pos = position(&c, t);
+            let used = w.token_ident(&tok, t).await;
+            let fresh = w.login("anonymous", Mech::Anonymous, "", false, t).await;
+            let fresh_ok = matches!(fresh, Login::Success(_));
+            match pos {
+                Pos::Outside => {
+                    n_out += 1;
+                    log.class("outside:anonymous");
+                    if used.is_ok() {
+                        log.fail(
+                            "bearer-token:anonymous-uat succeeded outside the validity window",
+                            format!("t={t} window=[{:?},{:?}] token issued at {} still converts to an identity", c.vf.map(grid), c.ex.map(grid), SETUP + 10),
+                        );
+                    }
+                    if fresh_ok {
+                        log.fail(
+                            "interactive-login:anonymous succeeded outside the validity window",
+                            format!("t={t} window=[{:?},{:?}]", c.vf.map(grid), c.ex.map(grid)),
+                        );
+                    }
+                }
+                Pos::Edge => log.class("edge-instant (not judged)"),
+                Pos::Inside => {
+                    n_in += 1;
+                    if used.is_ok() {
+                        log.class("in-window-success:bearer-token:anonymous-uat");
+                    } else {
+                        log.class("in-window-refused:bearer-token:anonymous-uat");
+                    }
+                    if fresh_ok {
+                        log.class("in-window-success:interactive-login:anonymous");
+                    }
+                }
+            }
+        }
+        if n_in > 0 && n_out > 0 {
+            log.nontrivial();
+        }
+    });
+    log.finish()
+}
+
 fn main() {
     let cx = Check::from_args("C49", "exploration");
     cx.rule(
@@ -463,6 +544,19 @@ fn main() {
     let n = cx.tier.pick(500, 12_000);
     let nq = cx.tier.pick(1..17usize, 1..30usize);
     cx.prop("window-x-paths", PropCfg::new(n).shrink(200), || arb_case(nq.clone()), srv::runtime, |rt, c| run(rt, c));
+    let na = cx.tier.pick(150, 3_000);
+    cx.prop(
+        "anonymous-token",
+        PropCfg::new(na).shrink(100),
+        || {
+            (prop::option::weighted(0.8, 0u8..5), prop::option::weighted(0.8, 0u8..5), prop::collection::vec(arb_at(), 2..8))
+                .prop_map(|(vf, ex, ats)| AnonCase { vf, ex, ats })
+        },
+        srv::runtime,
+        |rt, c| run_anon(rt, c),
+    );
+    cx.require_class("in-window-success:interactive-login:anonymous", 10);
+    cx.require_class("outside:anonymous", 30);
     for (l, floor) in [
         ("in-window-success:interactive-login", 20),
         ("in-window-success:reauth", 15),
